@@ -363,9 +363,14 @@ class ScipyOptimizeDriver(Driver):
                         ub = upper
                     
                     if linear:
-                        # LinearConstraint
-                        con = LinearConstraint(A=lincongrad[self._con_idx[name]],
-                                               lb=lb, ub=ub, keep_feasible=True)
+                        # LinearConstraint covering all rows of this constraint
+                        i0 = self._con_idx[name]
+                        lin_jac = lincongrad[i0:i0 + size]
+                        # scipy's LinearConstraint is lb <= A x <= ub, so move the constant
+                        # term of the (affine, scaled) constraint to the bounds.
+                        const = self._con_cache[name] - lin_jac.dot(x_init)
+                        con = LinearConstraint(A=lin_jac, lb=lb - const, ub=ub - const,
+                                               keep_feasible=True)
                         constraints.append(con)
                     else:
                         # NonlinearConstraint
